@@ -117,3 +117,6 @@ Record fops := {
   f_log : ft -> ft;
   f_gt : ft -> ft -> bool
 }.
+
+(* the validation steps of _common.moveaxis in SOURCE ORDER (tools/sitegen/validators.py: locator "moveaxis_steps") *)
+Inductive mv_step := MvNormSrc | MvNormDst | MvRepeatDst | MvLen.
